@@ -592,4 +592,47 @@ func c16API(c *Ctx) {
 			}
 		}
 	}
+	// nested additional bindings are refused ALSO below a pattern the method already holds (its own
+	// implicit /Service/Method path restated, or its own rule given twice): that path of addRule
+	// goes straight to the additional bindings
+	for _, redeclare := range []string{"implicit", "twice"} {
+		nestedAdd := func() []*annotations.HttpRule {
+			return []*annotations.HttpRule{{Pattern: &annotations.HttpRule_Get{Get: "/c16r/n"}, AdditionalBindings: []*annotations.HttpRule{getRule("/c16r/nn")}}}
+		}
+		var specs []*MethodSpec
+		var sc *serviceconfig.Service
+		if redeclare == "implicit" {
+			r := customRule("*", "/"+fxPkg+".Re/N", "*")
+			r.AdditionalBindings = nestedAdd()
+			specs = []*MethodSpec{{Service: "Re", Name: "N", In: "Req", Out: "Reply", Unary: echo, Rule: r}}
+		} else {
+			r := getRule("/c16r/own/{name}")
+			r.Selector = fxPkg + ".Re.N"
+			r.AdditionalBindings = nestedAdd()
+			specs = []*MethodSpec{{Service: "Re", Name: "N", In: "Req", Out: "Reply", Unary: echo, Rule: getRule("/c16r/own/{name}")}}
+			sc = &serviceconfig.Service{Http: &annotations.Http{Rules: []*annotations.HttpRule{r}}}
+		}
+		fixtureDeferRegistration = true
+		fx, err := NewFixture(specs, sc)
+		fixtureDeferRegistration = false
+		if err != nil {
+			c.Note("c16 redeclare fixture: " + err.Error())
+			continue
+		}
+		err2, pn := fx.RegisterOne("Re")
+		in := "nested additional bindings below a pattern the method already holds (" + redeclare + ")"
+		c.Eval("api-atomic", in, true)
+		var served []string
+		for _, p := range []string{"/c16r/n", "/c16r/nn"} {
+			if rec, _ := fx.Serve(httptest.NewRequest("GET", p, nil)); rec.Code == 200 {
+				served = append(served, p)
+			}
+		}
+		switch {
+		case pn != nil:
+			c.SpecFail("api-atomic", in, fmt.Sprint("panic: ", pn), "an error", "C16/api/panic/nested-redeclared", "an invalid registration panics")
+		case err2 == nil || len(served) > 0:
+			c.SpecFail("api-atomic", in, fmt.Sprintf("err=%v, routes served: %v", err2, served), "an error, no route of the rule", "C16/api/accepted/nested-redeclared", "nested additional bindings are accepted (and routed) when the rule's own pattern is already bound by the method")
+		}
+	}
 }
